@@ -158,7 +158,9 @@ def cases(tier, seed):
                          if bits % 2 else None),
                'rel': bits % 3 != 0, 'shuffle': None,
                # every fifth tree: the listed case files are symbolic links to files kept in another directory
-               'linked': bits % 5 == 2}
+               'linked': bits % 5 == 2,
+               # every seventh tree: the actor is given on the command line of every way of running
+               'cli_actor': bits % 7 == 3}
     # (4) shared suite contents: every single instruction kind in two listing orders; combinations
     for j, nm in enumerate(sorted(_SHARED)):
         yield {'kind': 'shared', 'names': [nm], 'order': [0, 1, 2]}
@@ -239,7 +241,7 @@ def _random_contents(rng):
             'subcases': [_random_case_spec(rng, 'k2')] if has_sub else [],
             'decoy': _random_suite_spec(rng, allow_fail=False) if rng.random() < 0.5 else None,
             'rel': rng.random() < 0.6, 'shuffle': rng.randrange(1 << 30) if rng.random() < 0.6 else None,
-            'linked': rng.random() < 0.2}
+            'linked': rng.random() < 0.2, 'cli_actor': rng.random() < 0.15}
 
 
 # ---------------------------------------------------------------------------------------------------------------
@@ -687,7 +689,8 @@ def model(suite, prefix, c):
         suite = {'actor': None, 'pre': False, 'status': None, 'phases': [], 'fail': None}
     # [conf]: suite contents first, then the case's own: the later setting wins
     status = c['status'] or suite['status'] or 'PASS'
-    actor = c['actor'] or suite['actor'] or 'default'
+    # (an actor given on the command line is the default actor of the run: what suite and case configure comes later)
+    actor = c['actor'] or suite['actor'] or ('source' if c.get('_cli_actor') else 'default')
     tok = ('pp-' + prefix) if suite['pre'] else PP_TOKEN
     pp = ['%s:%s.case' % (prefix, c['name'])] if suite['pre'] else []
 
@@ -794,6 +797,10 @@ def _run_contents(case, ctx):
         files[lp + ' (symbolic link)'] = '-> ' + target
         ctx.count('c17.linked_case_files')
     rel = case.get('rel', True)
+    cli_actor = bool(case.get('cli_actor'))
+    AOPT = ['--actor', '/bin/sh'] if cli_actor else []
+    if cli_actor:
+        ctx.count('c17.cli_actor_trees')
     evaluations = 0
     classes = []
     sample = None
@@ -819,7 +826,7 @@ def _run_contents(case, ctx):
 
     def judge(way, prefix, sspec, c, cdir, ident, raw, pp_lines, position):
         """compare one (case, way of running) with the model"""
-        exp = model(sspec, prefix, c)
+        exp = model(sspec, prefix, dict(c, _cli_actor=True) if cli_actor else c)
         got_seq = [(r['id'], list(r['argv'])) for r in raw]
         ctx.count('c17.model_sequence_checks')
         if position == 'sub':
@@ -851,7 +858,7 @@ def _run_contents(case, ctx):
 
     # ---- (a) inside the suite run ---------------------------------------------------------------------------------
     per_way = {}  # (cdir) -> {way: (ident, normalised records)}
-    r, ok = R.run(['suite', 'root.suite'] if rel else ['suite', os.path.join(d, 'root.suite')],
+    r, ok = R.run(['suite'] + AOPT + (['root.suite'] if rel else [os.path.join(d, 'root.suite')]),
                   cwd=d if rel else ses.scratch, is_suite=True)
     if ok:
         idents, final = _suite_idents(r.out)
@@ -881,9 +888,9 @@ def _run_contents(case, ctx):
     for prefix, sspec, sfile, c, cdir in entries:
         cfile = '%s/%s.case' % (cdir, c['name'])
         if rel:
-            argv, cwd = ['--suite', sfile, cfile], d
+            argv, cwd = AOPT + ['--suite', sfile, cfile], d
         else:
-            argv, cwd = ['--suite', os.path.join(d, sfile), os.path.join(d, cfile)], ses.scratch
+            argv, cwd = AOPT + ['--suite', os.path.join(d, sfile), os.path.join(d, cfile)], ses.scratch
         r, ok = R.run(argv, cwd=cwd, is_suite=False)
         if ok:
             ident = r.out[:-1] if r.out.endswith('\n') and r.out.count('\n') == 1 else '<stdout %r>' % r.out[:80]
@@ -895,7 +902,7 @@ def _run_contents(case, ctx):
                 ctx.count('c17.decoy_override_checks')
             per_way.setdefault(cdir, {})['--suite'] = (ident, _norm_records(raw, R.tmpdirs))
         if decoy is not None:
-            r, ok = R.run([c['name'] + '.case'] if rel else [os.path.join(d, cfile)],
+            r, ok = R.run(AOPT + ([c['name'] + '.case'] if rel else [os.path.join(d, cfile)]),
                           cwd=os.path.join(d, cdir) if rel else ses.scratch, is_suite=False)
             if ok:
                 ident = r.out[:-1] if r.out.endswith('\n') and r.out.count('\n') == 1 else '<stdout %r>' % r.out[:80]
@@ -910,7 +917,7 @@ def _run_contents(case, ctx):
             f.write(beside)
         files = dict(files)
         files[cdir + '/exactly.suite (for way beside)'] = beside
-        r, ok = R.run([c['name'] + '.case'] if rel else [os.path.join(d, cfile)],
+        r, ok = R.run(AOPT + ([c['name'] + '.case'] if rel else [os.path.join(d, cfile)]),
                       cwd=os.path.join(d, cdir) if rel else ses.scratch, is_suite=False)
         if ok:
             ident = r.out[:-1] if r.out.endswith('\n') and r.out.count('\n') == 1 else '<stdout %r>' % r.out[:80]
